@@ -747,9 +747,40 @@ func (e *EvalEnv) call(x *ast.CallExpr) (Val, error) {
 			}
 		}
 	}
+	if sel, ok := x.Fun.(*ast.SelectorExpr); ok {
+		// method call on a value: the real (pure) Go method is executed symbolically
+		if recv, err := e.Eval(sel.X); err == nil {
+			var rt types.Type
+			switch rv := recv.(type) {
+			case TV:
+				rt = rv.Typ
+			case PtrV:
+				rt = rv.Typ
+			}
+			if rt != nil {
+				ms := e.X.P.SSA.MethodSets.MethodSet(rt)
+				for i := 0; i < ms.Len(); i++ {
+					if ms.At(i).Obj().Name() == sel.Sel.Name {
+						if fn := e.X.P.SSA.MethodValue(ms.At(i)); fn != nil {
+							return e.callGo(fn, append([]Val{recv}, nil...), x.Args)
+						}
+					}
+				}
+			}
+		}
+	}
 	id, ok := x.Fun.(*ast.Ident)
 	if !ok {
 		return nil, fmt.Errorf("unsupported call %s", exprString(x))
+	}
+	if e.Fn != nil && e.Fn.Pkg != nil {
+		if _, isVar := e.Vars[id.Name]; !isVar {
+			if fn := e.Fn.Pkg.Func(id.Name); fn != nil {
+				if rel := strings.TrimPrefix(pkgPathOf(e.Fn), modPath+"/"); e.X.DB == nil || e.X.DB.Preds[rel+"."+id.Name] == nil {
+					return e.callGo(fn, nil, x.Args)
+				}
+			}
+		}
 	}
 	switch id.Name {
 	case "old":
@@ -1136,6 +1167,50 @@ func (e *EvalEnv) call(x *ast.CallExpr) (Val, error) {
 		}
 	}
 	return nil, fmt.Errorf("unknown function %s in contract", id.Name)
+}
+
+// callGo evaluates a call to a real Go function inside a contract: the function is executed symbolically on a copy of
+// the state (its effects are discarded, its run-time checks generate no obligations): it must be pure.
+func (e *EvalEnv) callGo(fn *ssa.Function, pre []Val, argExprs []ast.Expr) (Val, error) {
+	args := append([]Val{}, pre...)
+	params := fn.Signature.Params()
+	for i, a := range argExprs {
+		v, err := e.Eval(a)
+		if err != nil {
+			return nil, err
+		}
+		if u, ok := v.(UConst); ok {
+			pi := i
+			if pi >= params.Len() {
+				return nil, fmt.Errorf("too many arguments to %s", fn.Name())
+			}
+			pt := params.At(pi).Type()
+			w, _, isInt := isInteger(pt)
+			if !isInt {
+				return nil, fmt.Errorf("constant argument for non-integer parameter of %s", fn.Name())
+			}
+			v = TV{T: BVConst(u.V, w), Typ: pt}
+		}
+		args = append(args, v)
+	}
+	if len(args) != len(fn.Params) {
+		return nil, fmt.Errorf("%s expects %d arguments", fn.Name(), len(fn.Params))
+	}
+	st := e.state().Clone()
+	saved := e.X.Opts.NoPanicObl
+	e.X.Opts.NoPanicObl = true
+	res, err := e.X.CallFunction(fn, args, st, "spec>", 1)
+	e.X.Opts.NoPanicObl = saved
+	if err != nil {
+		return nil, fmt.Errorf("calling %s in a contract: %v", fn.Name(), err)
+	}
+	switch len(res) {
+	case 0:
+		return nil, fmt.Errorf("%s returns nothing", fn.Name())
+	case 1:
+		return res[0], nil
+	}
+	return TupleV(res), nil
 }
 
 func (e *EvalEnv) convertTo(t types.Type, arg ast.Expr) (Val, error) {
